@@ -145,6 +145,14 @@ Example C06_fetch :
   (map b_hash (r_log r), X, map b_hash (blocks (r_chain r))) = ([2; 3; 5], [xa1; xb1; xa2], [0; 5; 3; 2]).
 Proof. vm_compute. reflexivity. Qed.
 
+(* lifecycle: stopping the replica / a caller going away gives no waiting client an outcome; the
+   command can still execute afterwards and only then is its waiter told success *)
+Example C06_lifecycle :
+  delivered_of (snd (crun cio_init [CRegister (1,1) 10; CLifecycle; CLifecycle; CExec [xa1]; CLifecycle]))
+  = [((1,1), 10, OSuccess)]
+  /\ snd (crun cio_init [CRegister (1,1) 10; CLifecycle]) = [([], []); ([], [])].
+Proof. vm_compute. split; reflexivity. Qed.
+
 (* outcomes: the waiter of an executed command gets success once; a later waiter on the same
    command gets failure; an aborted one gets failure *)
 Example C06_outcomes :
